@@ -2280,6 +2280,12 @@ def step(h, op, ctx):
         if sig in seen:
             continue
         seen.add(sig)
+        if "|exception:" in sig:
+            # The statement is about closure (which namespace members refer to), not about operations
+            # never refusing: an exception alone is counted, never decides.  The state it leaves behind
+            # is still checked for closure ("closure-broken-after-refusal").
+            ctx.count("exception_not_deciding:" + sig)
+            continue
         ctx.violation(sig, "%s   [%s; history %s]" % (msg, describe(layer, start), " ; ".join(map(repr, list(ops) + [op]))), case)
     if R.fatal:
         return None
